@@ -77,5 +77,5 @@ Init == x = 0
 Next == UNCHANGED x
 Spec == Init /\ [][Next]_x
 
-ASSUME JsonSerialize(IOEnv.GEN_OUT, [C18 |-> C18Cases, C06 |-> C06Cases, C07 |-> C07Cases, C15 |-> C15Opts, C16 |-> C16Sets, C19 |-> C19Scheds, C08 |-> C08Cases, C09 |-> C09Cases, C10 |-> C10Cases, C20 |-> C20Cases, C12 |-> C12Cases, C04 |-> C04Cases, C05 |-> C05Cases, C11 |-> AllCoincidencesC11, C01 |-> C01Cases])
+ASSUME JsonSerialize(IOEnv.GEN_OUT, [C18 |-> C18Cases, C06 |-> C06Cases, C07 |-> C07Cases, C15 |-> C15Opts, C16 |-> C16Sets, C19 |-> C19Scheds, C08 |-> C08Cases, C09 |-> C09Cases, C10 |-> C10Cases, C20 |-> C20Cases, C12 |-> C12Cases, C04 |-> C04Cases, C05 |-> C05Cases, C11 |-> AllCoincidencesC11, C01 |-> C01Cases, C02 |-> C02Cases])
 =============================================================================
